@@ -216,7 +216,7 @@ func Generate(w *spec.World, pl *Plugins, modDir string, opt Options) *Built {
 	}
 	type job struct{ name, param string }
 	jobs := []job{{"protoc-gen-go", ""}, {"protoc-gen-go-http", httpParam}, {"protoc-gen-go-client", ""}}
-	if !opt.SkipTS {
+	if !opt.SkipTS && !w.NoTS {
 		jobs = append(jobs, job{"protoc-gen-openapiv3", ""}, job{"protoc-gen-ts-client", ""}, job{"protoc-gen-ts-server", ""})
 	}
 	for _, j := range jobs {
@@ -258,7 +258,7 @@ func Generate(w *spec.World, pl *Plugins, modDir string, opt Options) *Built {
 		b.GoPkgs = append(b.GoPkgs, p)
 	}
 	sort.Strings(b.GoPkgs)
-	if !opt.SkipTS {
+	if !opt.SkipTS && !w.NoTS {
 		tsDir := filepath.Join(b.Dir, "ts")
 		_ = os.MkdirAll(tsDir, 0o755)
 		for _, name := range []string{"protoc-gen-ts-client", "protoc-gen-ts-server", "protoc-gen-openapiv3"} {
